@@ -90,7 +90,7 @@ var defC11F = register(&PropDef{
 		return cfg
 	},
 	Init: fInit,
-	Step: fStep(FProfile{MaxConsumers: 2, Remove: true, TwoConsumerPrelude: 60, Weights: map[string]int{"timeout": 6, "bigdt": 3, "remove": 1, "staking": 8, "relay": 8, "errack": 4}}),
+	Step: fStep(FProfile{MaxConsumers: 2, Remove: true, TwoConsumerPrelude: 60, Weights: map[string]int{"timeout": 6, "bigdt": 3, "remove": 1, "staking": 8, "relay": 8, "errack": 4, "raw": 3}}),
 	Monitor: func(w *world.World) oracle.Monitor { return oracle.NewC11(w) },
 	Finish:  finishF,
 })
